@@ -247,6 +247,15 @@ def krylovExp (O : VecOps S R V) (mexp : Nat → Mat S → Mat S) (cfg : ExpCfg 
   | .error e => .error e
   | .ok r => if r.converged then .ok r.result else .error .recursion
 
+/-- The public entry point with its own parameter list
+`krylov_exp(op, v, exp_tolerance, norm_tolerance, is_hermitian, max_krylov_dim)`: every argument
+is forwarded *by name* to `krylov_exp_impl` (whose positional order is different:
+`is_hermitian, exp_tolerance, norm_tolerance`). -/
+def krylovExpPublic (O : VecOps S R V) (mexp : Nat → Mat S → Mat S) (v : V)
+    (expTolerance normTolerance : R) (isHermitian : Bool) (maxKrylovDim : Nat) : Except Err V :=
+  krylovExp O mexp { isHermitian := isHermitian, expTol := expTolerance, normTol := normTolerance,
+                     maxDim := maxKrylovDim } v
+
 end
 
 /-! ## `krylov_energy_minimization_impl` -/
@@ -398,6 +407,17 @@ def energyMin (O : VecOps S R V) (eigh : Nat → Nat → List R → List R → R
   | .ok r =>
     if !r.converged && !r.happyBreakdown then .error .recursion
     else .ok (r.groundState, r.groundEnergy)
+
+/-- The public entry point with its own parameter list
+`krylov_energy_minimization(op, psi, norm_tolerance, residual_tolerance, max_krylov_dim)`: the
+arguments are forwarded *by name* to `krylov_energy_minimization_impl`, whose positional order is
+`(op, psi, residual_tolerance, norm_tolerance, …)`; `max_restarts` keeps its default
+`DEFAULT_MAX_RESTARTS = 100`. `numTol` is the module constant `NUMERICAL_TOLERANCE`. -/
+def energyMinPublic (O : VecOps S R V) (eigh : Nat → Nat → List R → List R → R × List R)
+    (numTol : R) (psi : V) (normTolerance residualTolerance : R) (maxKrylovDim : Nat) :
+    Except Err (V × Option R) :=
+  energyMin O eigh { residTol := residualTolerance, normTol := normTolerance, maxDim := maxKrylovDim,
+                     maxRestarts := 100, numTol := numTol } psi
 
 end
 
